@@ -1,4 +1,6 @@
 import PV.Lemmas.UThread
+import PV.Lemmas.UThreadOwners
+import PV.Lemmas.UThreadRefine
 /-!
 # C05 — threads: join / exit code, reference count, TLS destructors
 
@@ -20,9 +22,14 @@ Reading guide (property text → theorem)
 * "the notifier runs exactly once for every non-NULL value left at thread exit or replaced, never for
   set" → `destructor_exactly_once` (three clauses) and `destructor_only_then`.
 * lazy native-key creation → `key_race_single_winner`, `key_race_loser_cleans_up`, `tls_uses_published_key`.
+* `p_uthread_init` / `p_uthread_shutdown` → `init_shutdown_neutral_threads`.
 * `p_uthread_local_free` (repaired: deletes the native key, frees its block) → `local_free_releases_native_key`,
   `native_release_once`; source-shape obligations of the F10 repair → `proxy_checks_its_slot`.
 * creation handshake → `fields_written_before_start`.
+* the independent executable reference `PV/Spec/UThread.lean` (the spec column of the differential run) answers
+  exactly as the machine does → `spec_refinement_step`, `spec_refinement`, `spec_refinement_disciplined`.
+* references attributed to the threads that hold them (`PV.Model.UThreadOwners`) → `user_refs_are_held`,
+  `refcount_is_outstanding_references`, `per_thread_discipline_implies_pooled`, `no_use_after_free_per_thread`.
 -/
 namespace PV.UThread
 open PV.Generated.UThread
@@ -341,6 +348,83 @@ theorem tls_uses_published_key {s s' : State} (hr : Reach s) :
     exact ⟨n, hp, ((hk.kP k n hp).2.2 hwf).1, rfl⟩
 
 
+
+
+
+/-- `p_uthread_init` … any history … `p_uthread_shutdown` is neutral for the thread module's TLS resources:
+    when the library is shut down (by a running thread `a`) in any reachable state in which nobody is inside a TLS
+    call — in particular when no library thread is alive any more — the library key's wrapper is released and
+    no native key and no native-key block of the library key remains (also when the key was never used: the
+    `p_uthread_get_local` inside shutdown creates the native key and `p_uthread_local_free` releases it again);
+    and if the user has released all of his keys, no native key and no block remains at all -/
+theorem init_shutdown_neutral_threads {s s' : State} {a : Nat} (hr : Reach s) (hs : shutdown s a = .ok s')
+    (hq : ∀ t, (s.thr t).pend = none) :
+    (s'.key 0).wrapperFreed = true ∧
+    (∀ n, n < s'.nN → (s'.nkey n).owner = 0 → (s'.nkey n).live = false ∧ (s'.nkey n).blockFreed = true) ∧
+    ((∀ k, 0 < k → k < s.nK → (s.key k).wrapperFreed = true) →
+      ∀ n, n < s'.nN → (s'.nkey n).live = false ∧ (s'.nkey n).blockFreed = true) :=
+  shutdown_neutral hr.inv.1 hs hq
+
+/-! ## the independent reference (`PV.Spec.UThread`) answers as the machine does -/
+
+open PV.UThreadSpec in
+/-- one event: from related states (`Abs`: the reference's handle table, thread→handle map, key table and cells
+    are the machine's, seen through `absH` / `selfOf` / `cellOf`) an event the machine accepts leads to related
+    states, and the API-visible answer — returned ids / join code / `get_local` value, live handles, handles
+    released, notifier calls (sorted) — is the same on both sides -/
+theorem spec_refinement_step {s s' : State} {sp : S} {e : Ev} (hr : Reach s) (ab : Abs s sp) (hs : step s e = .ok s') :
+    Abs s' (specStep sp e).1 ∧ obsM s e s' = (specStep sp e).2 :=
+  refine_step hr ab hs
+
+open PV.UThreadSpec in
+/-- every history, from the initial states: as far as the machine accepts the events the reference gives the
+    same answers, and if the machine accepts all of them the two answer lists are equal (so the `SPECDIFF`
+    column of the driver is empty on every history that does not fault) -/
+theorem spec_refinement (es : List Ev) :
+    obsRun init es = (specRun {} es).take (obsRun init es).length ∧
+    (∀ s', run init es = .ok s' → obsRun init es = specRun {} es) := by
+  have := refine_run es Reach.init Abs.init
+  exact ⟨this.1, fun s' h => (this.2 s' h).1⟩
+
+open PV.UThreadSpec in
+/-- in particular for histories that obey the reference discipline: they never fault on a handle
+    (`no_use_after_free_run`), and wherever they are enabled the reference agrees -/
+theorem spec_refinement_disciplined (es : List Ev) (hd : Disciplined init es) :
+    (∀ h, run init es ≠ .error (.useAfterFree h)) ∧
+    obsRun init es = (specRun {} es).take (obsRun init es).length :=
+  ⟨no_use_after_free_run .init hd, (spec_refinement es).1⟩
+
+/-! ## references attributed to the threads that hold them -/
+
+/-- along histories in which every thread uses only its own references the pooled ghost counter of a
+    handle is the sum, over all threads, of the references each of them holds (the creator's included) -/
+theorem user_refs_are_held {g : GState} (hr : TReach g) (h : Nat) : (g.s.hdl h).userRefs = heldBy g h :=
+  hr.inv.2.oU h
+
+/-- … so `refcount_is_holders` reads literally: `ref_count` = number of outstanding references =
+    Σ over threads of the references they hold + the described thread's own one -/
+theorem refcount_is_outstanding_references {g : GState} (hr : TReach g) (h : Nat) (hf : (g.s.hdl h).freed = false) :
+    (g.s.hdl h).refCount = ((heldBy g h + (if (g.s.hdl h).threadRef then 1 else 0) : Nat) : Int) := by
+  have := refcount_is_holders hr.inv.1.reach h hf
+  rw [this, holders, user_refs_are_held hr h]
+
+/-- the per-thread discipline is a special case of the pooled one (which also allows handing a reference
+    from one thread to another) -/
+theorem per_thread_discipline_implies_pooled {g : GState} {e : Ev} (hr : TReach g) (hp : PermittedT g e) :
+    Permitted g.s e ∧ DReach g.s :=
+  ⟨hp.permitted hr.inv.2, hr.inv.1⟩
+
+/-- `no_use_after_free` for the per-thread discipline: when every thread uses only references it holds
+    itself, no event reads or writes a freed `PUThread` block -/
+theorem no_use_after_free_per_thread {g : GState} {e : Ev} (hr : TReach g) (hp : PermittedT g e) :
+    ∀ h, gstep g e ≠ .error (.useAfterFree h) := by
+  intro h hs
+  unfold gstep at hs
+  split at hs
+  · cases hs
+  · rename_i x hx; injection hs with hs; subst hs
+    exact no_use_after_free hr.inv.1 (hp.permitted hr.inv.2) h hx
+
 /-! ## `p_uthread_local_free` (repaired code) and the F10 repair -/
 
 /-- `p_uthread_local_free (k)` releases the wrapper and, if `k` ever got a native key, exactly that one:
@@ -453,5 +537,30 @@ example : (match run init [.localNew 0 true, .createBegin 0 true false, .createE
       .keyCreate 1 1, .keyCas 1 1, .setLocal 1 1 5, .localFree 0 1, .ret 1, .threadEnd 1] with
     | .ok s => some (s.dtorLog, s.keyDelLog, s.blockFreeLog, (s.nkey 1).live, (s.nkey 1).blockFreed)
     | .error _ => none) = some ([(1, 0, 1)], [1], [1], false, true) := by rfl
+
+/-- `demo` also obeys the per-thread discipline (the creator, thread 0, holds and gives up both user
+    references); in its final state nobody holds anything -/
+example : checkDiscT ginit demo = true := by rfl
+example : (match grun ginit (demo.take 11) with
+    | .ok g => some (g.owns 0 0, g.owns 0 1, g.owns 1 0, heldBy g 0, (g.s.hdl 0).refCount)
+    | .error _ => none) = some (1, 1, 0, 1, 2) := by rfl
+
+/-- the reference on `demo`: the same 25 answers as the machine, e.g. the last three (thread 2 ends: handle 1
+    released, notifier for 7; join gives −3; last unref releases handle 0) -/
+example : PV.UThreadSpec.obsRun init demo = PV.UThreadSpec.specRun {} demo := by rfl
+example : ((PV.UThreadSpec.specRun {} demo).drop 22).map (fun o => (o.ret, o.live, o.freed, o.dtor)) =
+    [([], [0], [1], [(2, 1, 7)]), ([-3], [0], [], []), ([], [], [0], [])] := by rfl
+
+/-- init immediately followed by shutdown: the native key made by the `get_local` inside shutdown is released
+    again; and shutdown after `demo` (all threads ended, but the user key 1 never released): the library key's
+    native keys are gone, the user key's native key 2 is what remains -/
+example : (match shutdown init 0 with
+    | .ok s => some (s.nN, (s.nkey 0).live, (s.nkey 0).blockFreed, s.keyDelLog, s.blockFreeLog)
+    | .error _ => none) = some (1, false, true, [0], [0]) := by rfl
+example : (match run init demo with
+    | .ok s => (match shutdown s 0 with
+      | .ok s' => some ((List.range s'.nN).filter fun n => (s'.nkey n).live, s'.keyDelLog)
+      | .error _ => none)
+    | .error _ => none) = some ([2], [0, 1]) := by rfl
 
 end PV.UThread
